@@ -156,7 +156,9 @@ func (self *VM) spawnCore() *Core {
 	self.Cores.Lock.Lock()
 	defer self.Cores.Lock.Unlock()
 
-	ch := make(chan *value.VmInterrupt)
+	// Buffered: a core must be able to deliver its final signal and exit even if `Wait` has already returned
+	// (because another core failed or the execution was cancelled). Otherwise its goroutine would block forever.
+	ch := make(chan *value.VmInterrupt, 1)
 	core := NewCore(
 		&self.Program.Functions,
 		hostcall,
